@@ -363,6 +363,15 @@ Definition create_swap (e : env) (s : state) (a rcp d : nat) (amt : Z) (rest : b
         else Ok (set_swaps s (mkSwap a rcp d amt false :: swaps s)) []
   end.
 
+(* the message carries a coin list; the keeper refuses anything but exactly one
+   coin ("amount must contain exactly one coin"): asset lookup, deputy
+   comparison, limits and supply accounting all read the first coin only *)
+Definition create_swap_msg (e : env) (s : state) (a rcp : nat) (amount : coins) (rest : bool) : outcome state coins :=
+  match amount with
+  | [(d, amt)] => create_swap e s a rcp d amt rest
+  | _ => Err
+  end.
+
 (** * committee *)
 
 Definition find_com (s : state) (c : nat) : option committee :=
@@ -548,7 +557,7 @@ Inductive op :=
 | Block (a d b : nat)
 | Unblock (a d b : nat)
 | SetPause (a d : nat) (st : bool)
-| CreateSwap (a rcp d : nat) (amt : Z) (rest : bool)
+| CreateSwap (a rcp : nat) (amount : coins) (rest : bool)
 | Submit (a c : nat) (dur : Z) (rest : bool)
 | Vote (a pid vt : nat)
 | UpdateParams (a : nat) (p : Z * Z * Z)
@@ -568,7 +577,7 @@ Definition step (e : env) (s : state) (o : op) : outcome state coins :=
   | Block a d b => block e s a d b
   | Unblock a d b => unblock e s a d b
   | SetPause a d st => set_pause e s a d st
-  | CreateSwap a rcp d amt rest => create_swap e s a rcp d amt rest
+  | CreateSwap a rcp amount rest => create_swap_msg e s a rcp amount rest
   | Submit a c dur rest => submit e s a c dur rest
   | Vote a pid vt => vote e s a pid vt
   | UpdateParams a p => update_params e s a p
@@ -590,7 +599,7 @@ Definition run (e : env) (s : state) (ops : list op) : state := fold_left (step'
 Definition signer (o : op) : nat :=
   match o with
   | PostPrice a _ _ _ | Issue a _ _ _ | Redeem a _ _ | Block a _ _ | Unblock a _ _ | SetPause a _ _
-  | CreateSwap a _ _ _ _ | Submit a _ _ _ | Vote a _ _ | UpdateParams a _
+  | CreateSwap a _ _ _ | Submit a _ _ _ | Vote a _ _ | UpdateParams a _
   | CdpDraw a _ _ _ | CdpRepay a _ _ _ | CdpWithdraw a _ _ _ _
   | HardWithdraw a _ _ | SavWithdraw a _ | SwapWithdraw a _ _ _ _ _ | EarnWithdraw a _ _ _ _ _ _ => a
   end.
@@ -605,7 +614,7 @@ Definition with_signer (o : op) (b : nat) (r : bool) : op :=
   | Block _ d x => Block b d x
   | Unblock _ d x => Unblock b d x
   | SetPause _ d st => SetPause b d st
-  | CreateSwap _ rcp d amt _ => CreateSwap b rcp d amt r
+  | CreateSwap _ rcp amount _ => CreateSwap b rcp amount r
   | Submit _ c dur _ => Submit b c dur r
   | Vote _ pid vt => Vote b pid vt
   | UpdateParams _ p => UpdateParams b p
@@ -630,7 +639,7 @@ Definition handler_of (o : op) : string * string :=
   | Block _ _ _ => ("issuance", "BlockAddress")
   | Unblock _ _ _ => ("issuance", "UnblockAddress")
   | SetPause _ _ _ => ("issuance", "SetPauseStatus")
-  | CreateSwap _ _ _ _ _ => ("bep3", "CreateAtomicSwap")
+  | CreateSwap _ _ _ _ => ("bep3", "CreateAtomicSwap")
   | Submit _ _ _ _ => ("committee", "SubmitProposal")
   | Vote _ _ _ => ("committee", "Vote")
   | UpdateParams _ _ => ("community", "UpdateParams")
@@ -646,7 +655,7 @@ Definition handler_of (o : op) : string * string :=
 (* one representative operation per constructor, for the coverage statement *)
 Definition op_samples : list op := [
   PostPrice 0 0 0 0; Issue 0 0 0 0; Redeem 0 0 0; Block 0 0 0; Unblock 0 0 0; SetPause 0 0 false;
-  CreateSwap 0 0 0 0 false; Submit 0 0 0 false; Vote 0 0 0; UpdateParams 0 (0%Z, 0%Z, 0%Z);
+  CreateSwap 0 0 [] false; Submit 0 0 0 false; Vote 0 0 0; UpdateParams 0 (0%Z, 0%Z, 0%Z);
   CdpDraw 0 0 0 false; CdpRepay 0 0 0 false; CdpWithdraw 0 0 0 0 false;
   HardWithdraw 0 [] false; SavWithdraw 0 []; SwapWithdraw 0 0 0 0 0 false; EarnWithdraw 0 0 0 0 0 false false ]%nat.
 
@@ -676,10 +685,11 @@ Definition authorised (e : env) (s : state) (o : op) : bool :=
       match oracles_of s m with Some os => mem a os | None => false end
   | Issue a d _ _ | Redeem a d _ | Block a d _ | Unblock a d _ | SetPause a d _ =>
       match find_asset s d with Some x => Nat.eqb a (as_owner x) | None => false end
-  | CreateSwap a rcp d _ _ =>
+  | CreateSwap a rcp [(d, _)] _ =>
       match find_b3 s d with
       | Some x => Nat.eqb a (b3_deputy x) || Nat.eqb rcp (b3_deputy x)
       | None => false end
+  | CreateSwap _ _ _ _ => false                 (* nobody may send a swap of several coins *)
   | Submit a c _ _ =>
       match find_com s c with Some x => mem a (cm_members x) | None => false end
   | Vote a pid _ =>
@@ -744,7 +754,7 @@ Definition project (e : env) (s : state) (o : op) : list Z :=
       flat_map (fun x => [n2z (as_owner x); b2z (as_paused x); b2z (as_blockable x); n2z (length (as_blocked x))]
                          ++ map n2z (as_blocked x) ++ [iss_supply s (as_denom x)]
                          ++ map (fun a => iss_bal s a (as_denom x)) (seq 0 (nusers e))) (assets s)
-  | CreateSwap _ _ _ _ _ =>
+  | CreateSwap _ _ _ _ =>
       n2z (length (swaps s)) ::
       flat_map (fun w => [n2z (sw_sender w); n2z (sw_recipient w); n2z (sw_denom w); sw_amount w; b2z (sw_incoming w)]) (swaps s)
   | Submit _ _ _ _ | Vote _ _ _ =>
